@@ -102,6 +102,33 @@ func (t table) route(kind, host, target, user string) (triple, bool) {
 	return triple{}, false
 }
 
+// matches says whether the route matches the request at all (host pattern, user restriction, location prefix).
+func (tr triple) matches(kind, host, target, user string) bool {
+	if kind == kTLS {
+		user = ""
+	}
+	okHost := false
+	for _, d := range candidates(canonHost(kind, host)) {
+		if d == tr.Domain {
+			okHost = true
+		}
+	}
+	return okHost && (tr.User == "" || tr.User == user) && strings.HasPrefix(cleanPath(kind, target), tr.Loc)
+}
+
+// triplesOf lists the triples an identity owns.
+func (t table) triplesOf(ident string) []triple {
+	var out []triple
+	for tr, e := range t {
+		for _, o := range e.Owners {
+			if o == ident {
+				out = append(out, tr)
+			}
+		}
+	}
+	return out
+}
+
 // owners returns the identities allowed to answer the request (nil = must be refused).
 func (t table) owners(kind, host, target, user string) []string {
 	tr, ok := t.route(kind, host, target, user)
